@@ -154,15 +154,19 @@ Fixpoint bc_r (op : binop) (a : val) (b : val) : option val :=
   | VA r => option_map VA (map_opt (bc_r op a) r)
   | _ => arith op a b
   end.
+Definition arith2 (op : binop) (p : val * val) : option val :=
+  match fst p, snd p with
+  | VA _, _ | _, VA _ => None
+  | x, y => arith op x y
+  end.
+
 Definition binop_val (op : binop) (a b : val) : option val :=
   match a, b with
   | VL l, VZ n => match op with Mul => Some (VL (List.concat (repeat l (Z.to_nat n)))) | _ => None end   (* [x] * n *)
   | VT l, VZ n => match op with Mul => Some (VT (List.concat (repeat l (Z.to_nat n)))) | _ => None end
   | VA l, VA r =>                    (* two 1-D arrays of the same length, element-wise *)
       if Nat.eqb (List.length l) (List.length r)
-      then option_map VA (map_opt (fun p => match fst p, snd p with
-                                            | VA _, _ | _, VA _ => None
-                                            | x, y => arith op x y end) (combine l r))
+      then option_map VA (map_opt (arith2 op) (combine l r))
       else None
   | VA l, _ => bc_l op b a
   | _, VA r => bc_r op a b
